@@ -22,7 +22,7 @@ func init() {
 		Covers:         "tsdb: PostingsForMatchers, postingsForMatcher, inversePostingsForMatcher, selectSeriesSet, labelValuesWithMatchers, labelNamesWithMatchers; storage: truncateToLimit, mergeGenericQuerier.mergeResults.",
 		NotCover:       "the postings combinators themselves (Intersect/Without/Merge with Seek: iterator state over runtime data), the index readers' Postings/LabelValues, regular-expression semantics of Matches (C17), sample presence in the time range.",
 		Run:            runC16,
-		MinObligations: 40,
+		MinObligations: 70,
 	})
 }
 
@@ -323,6 +323,8 @@ func regionsOf(s string) map[string]bool {
 	}
 	return m
 }
+
+var c16Extra []func(*eng.Ctx)
 
 func runC16(c *eng.Ctx) {
 	p := c.P
@@ -639,7 +641,12 @@ func runC16(c *eng.Ctx) {
 		}
 		c.Check("R4", tl.Where(), "truncateToLimit has one cut", len(tl.Narrowings("s")) == 1, p.Pos(tl.Body.Pos()), "")
 	}
+	for _, f := range c16Extra {
+		f(c)
+	}
 }
+
+func init() { c16Extra = append(c16Extra, runC16Range) }
 
 func undecidedC16(c *eng.Ctx, f *eng.Fn, what, why string) {
 	c.Fail("R1", f.Where(), what, c.P.Pos(f.Body.Pos()), "the abstract interpreter does not understand the code: "+why+" (not a pass)")
